@@ -38,6 +38,7 @@ type DocOptions struct {
 	MaxPrimary   int
 	MaxIncluded  int
 	DistinctIncl bool // included resources have pairwise distinct IDs (C11's domain)
+	InclPairs    bool // included resources have pairwise distinct (type, ID) pairs; IDs repeat across types on purpose
 	Errors       bool // may carry error objects
 	ExoticIDs    bool
 	AllFields    bool // select every field and request every relationship's data (C01)
@@ -215,8 +216,34 @@ func DrawDoc(t *core.Tape, s *SchemaSpec, o DocOptions) *DocSpec {
 		taken = map[string]bool{}
 	}
 
+	pairs := map[string]bool{}
+
 	for i := 0; i < ni; i++ {
 		ts := s.Types[t.Draw(len(s.Types))]
+
+		if o.InclPairs {
+			// the same ID under several types, never the same (type, ID) pair twice
+			id := ""
+
+			for tries := 0; tries < 8; tries++ {
+				id = PlainIDs[t.Draw(3)]
+				if !pairs[ts.Name+"\x00"+id] {
+					break
+				}
+
+				id = ""
+			}
+
+			for id == "" || pairs[ts.Name+"\x00"+id] {
+				id = drawID(t, o.ExoticIDs, taken)
+			}
+
+			pairs[ts.Name+"\x00"+id] = true
+			d.Included = append(d.Included, DrawResSpec(t, ts, id))
+
+			continue
+		}
+
 		d.Included = append(d.Included, DrawResSpec(t, ts, drawID(t, o.ExoticIDs, taken)))
 	}
 
@@ -255,6 +282,12 @@ func DrawDoc(t *core.Tape, s *SchemaSpec, o DocOptions) *DocSpec {
 
 				for i, j := range p {
 					ps[i] = sel[j]
+				}
+
+				// "id" may be listed explicitly, anywhere in the list
+				if t.Bool(1, 4) {
+					k := t.Draw(len(ps) + 1)
+					ps = append(ps[:k:k], append([]string{"id"}, ps[k:]...)...)
 				}
 
 				d.FieldSel[ts.Name] = ps
